@@ -20,8 +20,8 @@ from ..core import canon
 
 PROP = "C12"
 NAME = "c12_crash"
-RUNS = {"quick": 96, "thorough": 1500}
-TIMEOUT = 600
+RUNS = {"quick": 96, "thorough": 640}
+TIMEOUT = 1500
 CHUNK = 2
 DETERMINISM_RERUNS = 4
 RULE = (
@@ -366,8 +366,11 @@ def run(ctx):
             n_nonempty += 1
     # --- restarts ---------------------------------------------------------------------------
     candidates = [k for k in range(1, K + 1) if ref["snaps"][k][0] is not None]
-    if ctx.tier == "thorough" and t.flag(0.5, "restart_all"):
+    if ctx.tier == "thorough" and t.flag(0.5, "restart_all") and len(candidates) <= 150:
         chosen = candidates
+    elif ctx.tier == "thorough" and candidates:
+        n_restart = min(len(candidates), 8 + t.choice(33, "n_restart_many"))
+        chosen = sorted({candidates[t.choice(len(candidates), f"restart_k[{i}]")] for i in range(n_restart)})
     else:
         n_restart = min(len(candidates), 1 + t.choice(5, "n_restart"))
         chosen = sorted({candidates[t.choice(len(candidates), f"restart_k[{i}]")] for i in range(n_restart)}) if candidates else []
